@@ -119,6 +119,11 @@ EXTRA_TEXT = {
  "C20": "Also decided on a shape with two instances of the two-pin cell (a net moved to the same pin of the other instance is rejected); the comparer is built by its real __init__.",
  "C14": "Instance.reference is additionally decided on shape-concrete universes with two ports per definition (equal, growing and shrinking second port).",
 }
+# follow-up round (DESIGN 9.12)
+EXTRA_TEXT["C04"] += " Also decided (CrossHair/z3): Composer._write_assignment on an assignment cell of width 1-3 joined to any aligned slice of two nets of width 1-3 with symbolic base indices 0..40 writes a Verilog spelling of exactly the joined bits."
+EXTRA_TEXT["C06"] += " Also decided (CrossHair/z3, one job per group structure): parse_module_body gives a wire declaration the union of up to three (* *) groups written in front of it (three keys, bare or with a symbolic value) and the following item none."
+EXTRA_TEXT["C09"] += " Also decided: _bring_to_top names an instance / a cable prefix/name for every pair of symbolic name and prefix domains in which names start with, contain and repeat the prefix, moves it into the top, refreshes an EDIF identifier iff present, changes nothing else."
+EXTRA_TEXT["C18"] += " Also decided (CrossHair/z3): find_and_write_additional_instance_info writes every .attr / .param / .cname line of an instance (tables present or absent, 0-2 entries, symbolic values); a reference reader recovers exactly the stored tables."
 for _p, _t in EXTRA_TEXT.items():
     CLAIMED[_p]["text"] += " " + _t
 
